@@ -20,6 +20,15 @@ CHECKS = {
  "C10": ("fault_enumeration", "fault enumeration on every reachable state: all resume types x all single asset faults x live/restored",
          "every state reached by the BFS over the real engine x every resume type x {live, restored} x every single asset fault between sprints plus the storage fault; rejected resumes must leave JSON byte-identical with an empty sprint and not influence a later accepted resume (differential), impossible resumptions must fail the session",
          "single faults in quick tier; faults are edits of the asset document; small-scope graphs"),
+ "C07": ("exploration", "bounded exhaustive enumeration of routers x operands x draws against a reference decision list",
+         "every switch router with 0..2(3) cases drawn from all registered tests (read from the registry) with argument vectors incl. localized, erroring and wrong-arity ones, x default/no default, category/exit sharing, result name, waits/timeouts x a 13-value operand alphabet x contact language; random routers 2-4 categories x float64-boundary draws; router-less nodes; each run as a real session and compared with a reference decision list (exit, segment, saved result, failure when no category)",
+         "cases lists <= 3; reduced atom alphabets at length 3 as stated in the evidence rule; behaviours the statement leaves open are not judged"),
+ "C18": ("exploration", "full configuration product enumerated against a reference fallback chain",
+         "the full product of contact language x allowed-language list x base language x per-language translation states (absent, [], [\"\"], same length, different length) per property, with pairwise crosses, for send_msg, say_msg, send_broadcast, play_audio, send_email, set_run_result categories and switch-router arguments/category names, each run as a real session and compared with the reference chain (text, attachments, quick replies, locale, category_localized)",
+         "literal texts only; what the statement leaves open (argument translations of different count, locale of an empty message) is not judged"),
+ "C19": ("model_checking", "non-interference by lockstep twin-world BFS on the implementation, invariant on every reachable state",
+         "twin worlds differing only in URN paths/display names are driven in lockstep by a BFS over the real engine; in every reachable state the fully forced expression context and environment facts must be identical under redaction and differ without it; a generated template corpus (every context path x every one-argument function) is an independent second layer; URN queries must be rejected under the policy",
+         "evaluation is a pure function of context, environment and harness-owned seams; small-scope graphs; corpus evaluated on a subset of states"),
 }
 NOT_YET = {
 }
